@@ -1,4 +1,5 @@
-pub fn glob_to_regex(glob: &str) -> regex::Regex {
+/// Translate a DEP-5 glob to a regex, or say why it is not a valid glob.
+pub fn try_glob_to_regex(glob: &str) -> Result<regex::Regex, String> {
     let mut it = glob.chars();
     // (?s): "*" and "?" match any character, including a newline in a file name
     let mut r = "(?s)^".to_string();
@@ -15,10 +16,10 @@ pub fn glob_to_regex(glob: &str) -> regex::Regex {
                             regex::escape(c.unwrap().to_string().as_str())
                         }
                         Some(x) => {
-                            panic!("invalid escape sequence: \\{}", x);
+                            return Err(format!("invalid escape sequence: \\{}", x));
                         }
                         None => {
-                            panic!("invalid escape sequence: \\");
+                            return Err("invalid escape sequence: \\".to_string());
                         }
                     }
                 }
@@ -30,7 +31,22 @@ pub fn glob_to_regex(glob: &str) -> regex::Regex {
 
     r.push_str("$");
 
-    regex::Regex::new(r.as_str()).unwrap()
+    regex::Regex::new(r.as_str()).map_err(|e| e.to_string())
+}
+
+/// Translate a DEP-5 glob to a regex; panics if it is not a valid glob.
+#[cfg(test)]
+pub fn glob_to_regex(glob: &str) -> regex::Regex {
+    try_glob_to_regex(glob).unwrap_or_else(|e| panic!("{}", e))
+}
+
+/// Whether the glob matches the whole path.
+///
+/// A pattern that is not a valid glob (a backslash followed by anything but `*`, `?` or a
+/// backslash) matches nothing: looking up a file must not panic on the contents of the
+/// copyright file.
+pub fn glob_matches(glob: &str, path: &std::path::Path) -> bool {
+    try_glob_to_regex(glob).map_or(false, |r| r.is_match(path.to_str().unwrap()))
 }
 
 #[cfg(test)]
